@@ -710,7 +710,7 @@ func (p *parser) lowerClass(stmt js_ast.Stmt, expr js_ast.Expr, result visitClas
 
 			// Remove unused class names when minifying. Check this after we merge in
 			// the inner class name above since that will adjust the use count.
-			if p.options.minifySyntax && symbol.UseCountEstimate == 0 {
+			if p.options.minifySyntax && symbol.UseCountEstimate == 0 && !symbol.Flags.Has(ast.MustNotBeRenamed) {
 				ctx.class.Name = nil
 			}
 		}
